@@ -406,7 +406,14 @@ pub fn grid(rng: &mut Rng, cfg: &Cfg, depth: u32) -> Grid {
         rows.push(r);
     }
     let meta = match rng.below(4) {
-        0 => Some(dict(rng, cfg, depth + 1)),
+        0 => {
+            let mut m = dict(rng, cfg, depth + 1);
+            if cfg.wf {
+                // Hayson keeps the grid version in meta.ver: the name is reserved
+                m.remove("ver");
+            }
+            Some(m)
+        }
         1 => Some(Dict::new()),
         _ => None,
     };
